@@ -1,2 +1,196 @@
--- C04 property theorems (in progress)
-import Nq.Daemon
+/-
+  C04 — Finished recipients are never retried; at most one attempt in flight.
+
+  Model and tie as for C03 (`Nq.Daemon`, `harness/qsend.c`, `drv_c03`).  The slot table of the
+  monitor is the set of delivery commands handed to a spawner and not yet answered.
+-/
+import Nq.Lemmas.DaemonSlots
+import Nq.Lemmas.DaemonInv
+
+namespace Nq.Props.C04
+open Nq Nq.Daemon Nq.Lemmas.DS
+
+def Reach (cfg : Cfg) (s : St) : Prop := ∃ evs, acceptAll cfg {} evs = some s
+
+/-- the slot invariant -/
+structure SlotInv (cfg : Cfg) (s : St) : Prop where
+  bound : ∀ c, usedCount s c ≤ cfg.conc c
+  slotUnique : (s.slots.map fun x => (x.c, x.delnum)).Nodup
+  recUnique : (s.slots.map fun x => (x.m, x.c, x.idx)).Nodup
+
+theorem usedCount_sublist (s s' : St) (c : Ch) (h : s'.slots.Sublist s.slots) : usedCount s' c ≤ usedCount s c := by
+  unfold usedCount
+  exact (h.filter _).length_le
+
+theorem slotInv_sublist (cfg : Cfg) (s s' : St) (h : s'.slots.Sublist s.slots) (hi : SlotInv cfg s) : SlotInv cfg s' :=
+  ⟨fun c => Nat.le_trans (usedCount_sublist s s' c h) (hi.bound c),
+   (h.map _).nodup hi.slotUnique, (h.map _).nodup hi.recUnique⟩
+
+theorem slot_step (cfg : Cfg) (s s' : St) (e : Ev) (hi : SlotInv cfg s) (h : accept cfg s e = some s') : SlotInv cfg s' := by
+  by_cases h1 : ∃ c d m p r, e = .cmd c d m p r
+  · obtain ⟨c, d, m, p, r, rfl⟩ := h1
+    simp only [accept] at h
+    split at h
+    · cases h
+    · split at h
+      · cases h
+      · split at h
+        · cases h
+        · rename_i idx _
+          split at h
+          · rename_i hg; cases h
+            obtain ⟨_, _, _, _, hfree, hfl, _, hcount⟩ := hg
+            refine ⟨?_, ?_, ?_⟩
+            · intro c'
+              by_cases hc : c' = c
+              · subst hc
+                have : usedCount { s with slots := ⟨c', d, m, idx, r⟩ :: s.slots, mayMark := [], notes := [] } c' = usedCount s c' + 1 := by
+                  simp [usedCount]
+                rw [this]; omega
+              · have : usedCount { s with slots := ⟨c, d, m, idx, r⟩ :: s.slots, mayMark := [], notes := [] } c' = usedCount s c' := by
+                  have hne : (c == c') = false := by
+                    cases c <;> cases c' <;> simp_all
+                  simp [usedCount, hne]
+                rw [this]; exact hi.bound c'
+            · simp only [List.map_cons, List.nodup_cons]
+              refine ⟨?_, hi.slotUnique⟩
+              intro hmem
+              obtain ⟨x, hx, hxe⟩ := List.mem_map.1 hmem
+              simp only [Prod.mk.injEq] at hxe
+              have : (s.slots.any fun y => y.c == c && y.delnum == d) = true :=
+                List.any_eq_true.2 ⟨x, hx, by simp [hxe.1, hxe.2]⟩
+              simp [slotFree, this] at hfree
+            · simp only [List.map_cons, List.nodup_cons]
+              refine ⟨?_, hi.recUnique⟩
+              intro hmem
+              obtain ⟨x, hx, hxe⟩ := List.mem_map.1 hmem
+              simp only [Prod.mk.injEq] at hxe
+              have : (s.slots.any fun y => y.m == m && y.c == c && y.idx == idx) = true :=
+                List.any_eq_true.2 ⟨x, hx, by simp [hxe.1, hxe.2.1, hxe.2.2]⟩
+              simp [inFlight, this] at hfl
+          · cases h
+  · by_cases h2 : ∃ c bs, e = .rbytes c bs
+    · obtain ⟨c, bs, rfl⟩ := h2
+      simp only [accept] at h
+      split at h
+      · cases h
+      · cases h
+        exact slotInv_sublist cfg _ _ (feedReports_slots cfg c bs _) ⟨hi.bound, hi.slotUnique, hi.recUnique⟩
+    · by_cases h3 : e = .restart
+      · subst h3
+        simp only [accept] at h
+        cases h
+        exact ⟨fun c => by simp [usedCount], by simp, by simp⟩
+      · have := slots_unchanged cfg s s' e h (fun c d m p r he => h1 ⟨c, d, m, p, r, he⟩) (fun c bs he => h2 ⟨c, bs, he⟩) h3
+        exact ⟨fun c => by unfold usedCount; rw [this]; exact hi.bound c, by rw [this]; exact hi.slotUnique, by rw [this]; exact hi.recUnique⟩
+
+theorem reach_slots (cfg : Cfg) (s : St) (h : Reach cfg s) : SlotInv cfg s := by
+  obtain ⟨evs, h⟩ := h
+  have key : ∀ (evs : List Ev) (s0 s1 : St), SlotInv cfg s0 → acceptAll cfg s0 evs = some s1 → SlotInv cfg s1 := by
+    intro evs
+    induction evs with
+    | nil => intro s0 s1 h0 ha; simp [acceptAll] at ha; subst ha; exact h0
+    | cons e es ih =>
+      intro s0 s1 h0 ha
+      simp only [acceptAll] at ha
+      cases h1 : accept cfg s0 e with
+      | none => simp [h1] at ha
+      | some s2 => simp [h1] at ha; exact ih s2 s1 (slot_step cfg s0 s2 e h0 h1) ha
+  exact key evs {} s ⟨fun c => by simp [usedCount], by simp, by simp⟩ h
+
+/-- **Bounded concurrency**: in every reachable state the number of outstanding attempts on a
+channel is at most min(configured concurrency, limit announced by the spawner) (`cfg.conc`). -/
+theorem C04_bound (cfg : Cfg) (s : St) (h : Reach cfg s) (c : Ch) : usedCount s c ≤ cfg.conc c :=
+  (reach_slots cfg s h).bound c
+
+/-- **At most one attempt per recipient in flight**, and a delivery number never names two
+outstanding attempts. -/
+theorem C04_single (cfg : Cfg) (s : St) (h : Reach cfg s) :
+    (s.slots.map fun x => (x.m, x.c, x.idx)).Nodup ∧ (s.slots.map fun x => (x.c, x.delnum)).Nodup :=
+  ⟨(reach_slots cfg s h).recUnique, (reach_slots cfg s h).slotUnique⟩
+
+/-- **A finished recipient is never started**: a delivery command is possible only for a record
+whose completion mark is not on disk, of a fully preprocessed message, on a free slot. -/
+theorem C04_no_retry (cfg : Cfg) (s s' : St) (c : Ch) (d m pos : Nat) (r : Bytes)
+    (h : accept cfg s (.cmd c d m pos r) = some s') :
+    ∃ rs idx, (s.msg m).chan c = some rs ∧ recIndex rs pos = some idx ∧ (rs.getD idx ⟨true, []⟩).done = false ∧
+      (rs.getD idx ⟨true, []⟩).addr = r ∧ (s.msg m).todo = none ∧ inFlight s m c idx = false := by
+  simp only [accept] at h
+  split at h
+  · cases h
+  · split at h
+    · cases h
+    · rename_i rs hch
+      split at h
+      · cases h
+      · rename_i idx hidx
+        split at h
+        · rename_i hg
+          refine ⟨rs, idx, hch, hidx, by simpa using hg.2.2.1, hg.2.2.2.1, ?_, by simpa using hg.2.2.2.2.2.1⟩
+          cases ht : (s.msg m).todo with
+          | none => rfl
+          | some x => have := hg.1; simp [ht] at this
+        · cases h
+
+/-- …and conversely: once the `D` byte of a record is on disk, no delivery command for it is
+accepted (in the same run, after a clean restart, or after a crash that kept the byte). -/
+theorem C04_marked_refused (cfg : Cfg) (s : St) (c : Ch) (d m pos : Nat) (r : Bytes) (rs : List Rec) (idx : Nat)
+    (hc : (s.msg m).chan c = some rs) (hi : recIndex rs pos = some idx) (hd : (rs.getD idx ⟨true, []⟩).done = true) :
+    accept cfg s (.cmd c d m pos r) = none := by
+  simp only [accept]
+  split
+  · rfl
+  · simp only [hc, hi]
+    split
+    · rename_i hg
+      have h3 := hg.2.2.1
+      rw [hd] at h3; cases h3
+    · rfl
+
+/-- writing the mark makes the record done -/
+theorem C04_mark_sets (cfg : Cfg) (s s' : St) (c : Ch) (m pos : Nat) (h : accept cfg s (.markD m c pos) = some s') :
+    ∃ rs idx, (s.msg m).chan c = some rs ∧ recIndex rs pos = some idx ∧ (s'.msg m).chan c = some (setDone rs idx) := by
+  simp only [accept] at h
+  split at h
+  · cases h
+  · split at h
+    · cases h
+    · rename_i rs hch
+      split at h
+      · cases h
+      · rename_i idx hidx
+        split at h
+        · cases h
+          refine ⟨rs, idx, hch, hidx, ?_⟩
+          rw [St.msg_upd]; simp [Nq.Lemmas.DI.chan_setChan]
+        · cases h
+
+/-- only marks written with `markD` and reverted by a machine crash change a record's mark: a
+restart of the daemon (clean, or after a process crash) forgets the slots but no file content -/
+theorem C04_restart_keeps (cfg : Cfg) (s s' : St) (h : accept cfg s .restart = some s') : s'.tab = s.tab ∧ s'.slots = [] := by
+  simp only [accept] at h
+  cases h; exact ⟨rfl, rfl⟩
+
+/-! ### Non-vacuity -/
+
+def cfg0 : Cfg := { conc := fun _ => 1, lifetime := 1000, route := fun a => (.loc, a), doublebounceto := [112] }
+
+/-- with concurrency 1 a second delivery command is refused while the first is in flight -/
+example : acceptAll cfg0 {}
+    [.newmsg 7 [115] [[97], [98]], .creatInfo 7, .writeInfo 7 [70, 115, 0], .creatChan 7 .loc, .writeChan 7 .loc [84, 97, 0, 84, 98, 0],
+     .fsyncInfo 7, .fsyncChan 7 .loc, .cleanReq [116, 111, 100, 111, 47, 55, 0], .cUnlinkIntd 7, .cUnlinkTodo 7, .cleanResp 43,
+     .cmd .loc 0 7 0 [97], .cmd .loc 1 7 3 [98]] = none := by
+  decide
+
+/-- K report, mark, then a command for the same record is refused, the other record is started -/
+example : (acceptAll cfg0 {}
+    [.newmsg 7 [115] [[97], [98]], .creatInfo 7, .writeInfo 7 [70, 115, 0], .creatChan 7 .loc, .writeChan 7 .loc [84, 97, 0, 84, 98, 0],
+     .fsyncInfo 7, .fsyncChan 7 .loc, .cleanReq [116, 111, 100, 111, 47, 55, 0], .cUnlinkIntd 7, .cUnlinkTodo 7, .cleanResp 43,
+     .cmd .loc 0 7 0 [97], .rbytes .loc [0, 75, 0], .markD 7 .loc 0, .restart, .cmd .loc 0 7 3 [98]]).isSome = true ∧
+    acceptAll cfg0 {}
+    [.newmsg 7 [115] [[97], [98]], .creatInfo 7, .writeInfo 7 [70, 115, 0], .creatChan 7 .loc, .writeChan 7 .loc [84, 97, 0, 84, 98, 0],
+     .fsyncInfo 7, .fsyncChan 7 .loc, .cleanReq [116, 111, 100, 111, 47, 55, 0], .cUnlinkIntd 7, .cUnlinkTodo 7, .cleanResp 43,
+     .cmd .loc 0 7 0 [97], .rbytes .loc [0, 75, 0], .markD 7 .loc 0, .restart, .cmd .loc 0 7 0 [97]] = none := by
+  decide
+
+end Nq.Props.C04
